@@ -99,7 +99,13 @@ class CaseSet:
         self.model_ok.append(ok)
         self.probe.append("world %d %s %d" % (slot, path, seed))
         if ok:
-            self.mlines.append("let w%d = %s\nlet () = out_str \"ok\"" % (slot, term))
+            tape = "no_tape"
+            if el.uses_random:
+                sd = wj.get("random number seed", -1)
+                sd = seed if sd is None or sd < 0 else sd
+                dr = common.parse_vec(common.run_probe(["draws %d 30000" % sd])[0])
+                tape = "(tape_of [|%s|])" % "; ".join(ml(x) for x in dr)
+            self.mlines.append("let t%d = ref O\nlet w%d = %s %s\nlet () = out_str \"ok\"" % (slot, slot, term, tape))
         else:
             self.mlines.append("let () = out_str \"skip\"")
         self.meta.append({"kind": "world", "slot": slot, "world": wj})
@@ -114,38 +120,38 @@ class CaseSet:
 
     def p3(self, slot, pos, depth, props, t=0):
         return self._add("p3 %d %s %s %s %s %s" % (slot, fhex(pos[0]), fhex(pos[1]), fhex(pos[2]), fhex(depth), props_tok(props)),
-                         "let () = out_res (properties3d n w%d ((%s, %s), %s) %s %s (nat_of_int %d))"
-                         % (slot, ml(pos[0]), ml(pos[1]), ml(pos[2]), ml(depth), props_ml(props), t),
+                         "let () = out_res_st t%d (properties3d n w%d ((%s, %s), %s) %s %s !t%d)"
+                         % (slot, slot, ml(pos[0]), ml(pos[1]), ml(pos[2]), ml(depth), props_ml(props), slot),
                          {"kind": "p3", "pos": list(pos), "depth": depth, "props": props}, slot)
 
     def p2(self, slot, pos, depth, props, t=0):
         return self._add("p2 %d %s %s %s %s" % (slot, fhex(pos[0]), fhex(pos[1]), fhex(depth), props_tok(props)),
-                         "let () = out_res (properties2d n w%d (%s, %s) %s %s (nat_of_int %d))"
-                         % (slot, ml(pos[0]), ml(pos[1]), ml(depth), props_ml(props), t),
+                         "let () = out_res_st t%d (properties2d n w%d (%s, %s) %s %s !t%d)"
+                         % (slot, slot, ml(pos[0]), ml(pos[1]), ml(depth), props_ml(props), slot),
                          {"kind": "p2", "pos": list(pos), "depth": depth, "props": props}, slot)
 
     def single3(self, slot, which, pos, depth, c=0, k=0):
         if which == "t3":
             pl = "t3 %d %s %s %s %s" % (slot, fhex(pos[0]), fhex(pos[1]), fhex(pos[2]), fhex(depth))
-            mlx = "out_res1 (temperature3d n w%d ((%s, %s), %s) %s O)" % (slot, ml(pos[0]), ml(pos[1]), ml(pos[2]), ml(depth))
+            mlx = "out_res1_st t%d (temperature3d n w%d ((%s, %s), %s) %s !t%d)" % (slot, slot, ml(pos[0]), ml(pos[1]), ml(pos[2]), ml(depth), slot)
         elif which == "c3":
             pl = "c3 %d %s %s %s %s %d" % (slot, fhex(pos[0]), fhex(pos[1]), fhex(pos[2]), fhex(depth), c)
-            mlx = "out_res1 (composition3d n w%d ((%s, %s), %s) %s %s O)" % (slot, ml(pos[0]), ml(pos[1]), ml(pos[2]), ml(depth), nlit(c))
+            mlx = "out_res1_st t%d (composition3d n w%d ((%s, %s), %s) %s %s !t%d)" % (slot, slot, ml(pos[0]), ml(pos[1]), ml(pos[2]), ml(depth), nlit(c), slot)
         else:
             pl = "g3 %d %s %s %s %s %d %d" % (slot, fhex(pos[0]), fhex(pos[1]), fhex(pos[2]), fhex(depth), c, k)
-            mlx = "out_res (grains3d n w%d ((%s, %s), %s) %s %s %s O)" % (slot, ml(pos[0]), ml(pos[1]), ml(pos[2]), ml(depth), nlit(c), nlit(k))
+            mlx = "out_res_st t%d (grains3d n w%d ((%s, %s), %s) %s %s %s !t%d)" % (slot, slot, ml(pos[0]), ml(pos[1]), ml(pos[2]), ml(depth), nlit(c), nlit(k), slot)
         return self._add(pl, "let () = " + mlx, {"kind": which, "pos": list(pos), "depth": depth, "c": c, "k": k}, slot)
 
     def single2(self, slot, which, pos, depth, c=0, k=0):
         if which == "t2":
             pl = "t2 %d %s %s %s" % (slot, fhex(pos[0]), fhex(pos[1]), fhex(depth))
-            mlx = "out_res1 (temperature2d n w%d (%s, %s) %s O)" % (slot, ml(pos[0]), ml(pos[1]), ml(depth))
+            mlx = "out_res1_st t%d (temperature2d n w%d (%s, %s) %s !t%d)" % (slot, slot, ml(pos[0]), ml(pos[1]), ml(depth), slot)
         elif which == "c2":
             pl = "c2 %d %s %s %s %d" % (slot, fhex(pos[0]), fhex(pos[1]), fhex(depth), c)
-            mlx = "out_res1 (composition2d n w%d (%s, %s) %s %s O)" % (slot, ml(pos[0]), ml(pos[1]), ml(depth), nlit(c))
+            mlx = "out_res1_st t%d (composition2d n w%d (%s, %s) %s %s !t%d)" % (slot, slot, ml(pos[0]), ml(pos[1]), ml(depth), nlit(c), slot)
         else:
             pl = "g2 %d %s %s %s %d %d" % (slot, fhex(pos[0]), fhex(pos[1]), fhex(depth), c, k)
-            mlx = "out_res (grains2d n w%d (%s, %s) %s %s %s O)" % (slot, ml(pos[0]), ml(pos[1]), ml(depth), nlit(c), nlit(k))
+            mlx = "out_res_st t%d (grains2d n w%d (%s, %s) %s %s %s !t%d)" % (slot, slot, ml(pos[0]), ml(pos[1]), ml(depth), nlit(c), nlit(k), slot)
         return self._add(pl, "let () = " + mlx, {"kind": which, "pos": list(pos), "depth": depth, "c": c, "k": k}, slot)
 
     def size(self, slot, props):
